@@ -264,6 +264,35 @@ def run(chk, tier):
             chk.ok("R02.5", "vm|" + opc, fn)
         else:
             chk.bad("R02.5", "vm|" + opc, "VM arm %s computes %s" % (opc, sem.get(opc)), "rscel/src/interp/interp.rs")
+    # ---------------- R02.7 the code of a grouping unit is closed
+    chk.rule("R02.7", "grouping is realised in the code: every jump a precedence level emits lands on a label the same level binds, after the jump - the code of `b && c` inside "
+                      "`a || b && c || d` cannot skip operands of the enclosing `||` chain, so the unparenthesised chain evaluates like its parenthesised grouping")
+    n27 = 0
+    for m_ in ("parse_conditional_or", "parse_conditional_and", "parse_turnary_expression", "parse_match_expression"):
+        seen_ = {}
+        for p_ in db["roots"].get(m_, []):
+            if p_["kind"] == "code":
+                seen_.setdefault(p_["text"], p_)
+        for text_, p_ in sorted(seen_.items()):
+            n27 += 1
+            bound_ = {}
+            for k_, it_ in enumerate(p_["items"]):
+                if it_["k"] == "label":
+                    bound_.setdefault(it_["label"], k_)
+            probs_ = []
+            for k_, it_ in enumerate(p_["items"]):
+                if it_["k"] in ("jmp", "jmpcond"):
+                    l_ = it_.get("label")
+                    if not isinstance(l_, int) or l_ not in bound_:
+                        probs_.append("jump %d targets %s, which this level does not bind" % (k_, "L%s" % l_))
+                    elif bound_[l_] < k_:
+                        probs_.append("jump %d goes backwards to L%s" % (k_, l_))
+            if probs_:
+                chk.bad("R02.7", "%s|%s" % (m_, text_[:80]), "%s emits code that leaves its own extent: %s - a failed operand then skips operands of the enclosing chain "
+                                                            "(`a || b && c || d` evaluates like `a || b && (c || d)`)   [template: %s]" % (m_, "; ".join(probs_[:2]), text_[:200]), "rscel/src/compiler/compiler.rs (%s)" % m_)
+            else:
+                chk.ok("R02.7", "%s|%s" % (m_, text_[:80]))
+    chk.floor("R02.7", "templates of the jumping levels", n27, 8)
     chk.analysed = {"levels": sorted(CHAIN), "paths": sum(len(v) for v in db["roots"].values())}
     return chk.finish(
         "The grammar the parser implements, read off the templates that symbolic execution of each parse function yields: sub-parse callee per operand position, operator "
